@@ -83,6 +83,11 @@ func fmtCfg(r *Rng) GenCfg {
 func propC09(run *Run, n int) {
 	run.rule = "list-mode d = a.Diff(b) over random (a,b) with keys containing '/', '~', empty, unicode, number-like keys and '-'; targets a, b and perturbations on which the native diff applies; non-trivial = at least one hunk; distinct = distinct (a,b)"
 	r := NewRng(run.Seed)
+	// hunks at large indices (seven and more digits, 2^31, 2^32, 2^52; the model covers indices below 2^53): the pointer text must be the decimal index (tie only:
+	// v2's list diff of million-element arrays does not finish, so no real document pair stands behind these)
+	for _, idx := range []int64{999999, 1000000, 1000001, 12345678, 2147483647, 2147483648, 4294967296, 4503599627370496} {
+		addC09Tie(run, fmt.Sprintf("< ( s K\"6974656d73 I%d | #3ff0000000000000 | #4000000000000000 | \"78 | #4008000000000000 ) >", idx))
+	}
 	for i := 0; i < n; i++ {
 		cfg := fmtCfg(r)
 		a, b := cfg.Pair(r)
@@ -106,6 +111,21 @@ func propC09(run *Run, n int) {
 			}
 		}
 	}
+}
+
+// addC09Tie: the rendering of a hand-written diff, tied to the model (no documents behind it)
+func addC09Tie(run *Run, dw string) {
+	txt := implRenderPatch(dw)
+	c := Case{Recipe: Recipe{"c09big", []string{dw}}, Desc: map[string]string{"diff": dw, "impl_patch_text": txt}, Nontrivial: true, Sig: "big|" + dw}
+	text, _ := outcomeText(txt)
+	nd := numDict([]string{dw}, []string{text})
+	c.Probes = append(c.Probes, Probe{Kind: "corr", Rel: "RenderPatch = renderPatchM", Line: fmt.Sprintf("renderpatch %s %s", nd, dw), Want: txt})
+	run.Count("hand-written:large-index")
+	run.Add(c)
+}
+
+func init() {
+	recipes["c09big"] = func(run *Run, a []string) { addC09Tie(run, a[0]) }
 }
 
 // addC09Hand: dw is a hand-written diff that applies to a and gives b
